@@ -233,6 +233,14 @@ pub fn draw_message(ctx: &mut Ctx, msid_pool: &[u32]) -> RefMsg {
                     _ => 4,
                 };
                 let mut b = ctx.ch.bytes("bytes.seed", n);
+                if type_id != 4 && b.len() >= 4 && ctx.ch.chance("op.arg.ctledge", 1, 2) {
+                    // boundary values of the 32-bit field
+                    let v = *ctx.ch.pick("op.arg.ctlv", &[0u32, 1, 2, 0x7FFF_FFFF, 0x8000_0000, 0xFFFF_FFFF, 0x00FF_FFFF, 0x0100_0000]);
+                    b[0..4].copy_from_slice(&v.to_be_bytes());
+                    if b.len() == 5 {
+                        b[4] = ctx.ch.draw("op.arg.bwlimit", 4) as u8;
+                    }
+                }
                 if type_id == 4 && b.len() >= 2 {
                     // plausible event code
                     b[0] = 0;
